@@ -10,7 +10,6 @@ import (
 	"time"
 	"unicode/utf8"
 
-	"github.com/shopspring/decimal"
 	"google.golang.org/protobuf/proto"
 	"google.golang.org/protobuf/reflect/protoreflect"
 )
@@ -563,7 +562,7 @@ func checkRepr(ts *typeSet, m protoreflect.Message) (ok bool, why string) {
 					bad("date-range")
 				}
 			case fnDecimal:
-				if _, err := decimal.NewFromString(getStr(sm, "value")); err != nil {
+				if _, err := safeDecimal(getStr(sm, "value")); err != nil {
 					bad("decimal-malformed")
 				}
 			case fnAnyJ5:
